@@ -98,6 +98,10 @@ impl<H: HashChain> HssPrivateKey<H> {
             return hss_expand_aux_data::<H>(Some(aux_data), Some(private_key.seed.as_slice()));
         }
 
+        if aux_data.is_empty() {
+            return None;
+        }
+
         // Shrink input slice
         let aux_len = hss_get_aux_data_len(aux_data.len(), *top_lms_parameter);
         let moved = core::mem::take(aux_data);
